@@ -36,8 +36,8 @@ ANGLES = [0.0, 0.0, 0.0, 90.0, 180.0, 270.0, -90.0, 30.0, 45.0, 123.4, -17.5, 35
 
 # ---------------------------------------------------------------------- generator
 
-def _spacing(nmin, nmax, lo, hi):
-    val = st.floats(0.0, 2.0).map(lambda u: float('%.4g' % (lo * 10 ** u)))
+def _spacing(nmin, nmax, lo, hi, orders=2.0):
+    val = st.floats(0.0, orders).map(lambda u: float('%.4g' % (lo * 10 ** u)))
 
     @st.composite
     def s(draw):
@@ -56,17 +56,14 @@ def case_strategy(draw, file_only=False):
     conv = draw(st.sampled_from([0, 1, 2, 3]))
     oconv = draw(st.sampled_from([conv, conv, 0, 1, 2, 3]))
     cap = min(geo.node_capacity(conv), geo.node_capacity(oconv))
-    shape = draw(st.sampled_from(['any', 'any', 'any', 'nx1', 'ny1']))
-    dx = draw(_spacing(1, 12, 1.0, 500.0)) if shape != 'nx1' else [draw(_spacing(1, 1, 1.0, 500.0))[0]]
-    dy = draw(_spacing(1, 12, 1.0, 500.0)) if shape != 'ny1' else [draw(_spacing(1, 1, 1.0, 500.0))[0]]
-    if len(dx) == 1 and len(dy) == 1:
-        if shape == 'nx1' or (shape == 'any' and draw(st.booleans())): dy = dy * 2
-        else: dx = dx * 2
+    shape = draw(st.sampled_from(['any'] * 5 + ['nx1', 'ny1']))
+    dx = draw(_spacing(2, 12, 1.0, 500.0)) if shape != 'nx1' else [draw(_spacing(1, 1, 1.0, 500.0))[0]]
+    dy = draw(_spacing(2, 12, 1.0, 500.0)) if shape != 'ny1' else [draw(_spacing(1, 1, 1.0, 500.0))[0]]
     while (len(dx) + 1) * (len(dy) + 1) > cap:
         if len(dx) >= len(dy): dx = dx[:-1]
         else: dy = dy[:-1]
-    dz = draw(_spacing(2, 14, 0.5, 200.0))
-    big = draw(st.sampled_from([0, 0, 1, 1, 2, 3]))
+    dz = draw(_spacing(2, 14, 0.5, 200.0, orders=1.0 if file_only else 2.0))
+    big = draw(st.sampled_from([0, 0, 0, 3, 1] if file_only else [0, 0, 1, 1, 2, 3]))
     if big == 0: org = [0., 0., 0.]
     elif big == 3: org = [-dx[0] / 2, -dy[0] / 2, draw(st.sampled_from([0.0, dz[0], 100.0]))]
     elif big == 1: org = [draw(st.integers(-5000, 5000)) * 1.0, draw(st.integers(-5000, 5000)) * 1.0,
@@ -111,7 +108,8 @@ def enum_cases():
     out = []
     for atm in (0, 1, 2):
         for dx, dy in (([10.0], [5.0, 6.0]), ([10.0, 20.0, 30.0], [5.0]), ([10.0, 20.0], [5.0, 7.0]), ([10.0, 20.0, 30.0], [5.0, 6.0])):
-            for surf in ({'kind': 'flat'}, {'kind': 'stepped', 'keep': 0, 'cols': [[1, 0, 0.0], [2, 1, 0.5]]}):
+            for surf in ({'kind': 'flat'}, {'kind': 'stepped', 'keep': 0, 'cols': [[1, 0, 0.0], [2, 1, 0.5]]},
+                         {'kind': 'stepped', 'keep': 1, 'cols': [[0, 1, 0.0]]}):      # origin column = its bottom block only
                 for angle in (0.0, 30.0):
                     for conv in (0, 2):
                         out.append({'dx': dx, 'dy': dy, 'dz': [1.0, 2.0, 3.0], 'origin': [100.0, -200.0, 50.0], 'conv': conv,
@@ -124,8 +122,8 @@ def enum_cases():
 def searches(tier):
     q = tier == 'quick'
     return [Search('fixed', 'enum', enum_cases, shards=8),
-            Search('generated', 'hyp', case_strategy, n=1600 if q else 40000, shards=16),
-            Search('file', 'hyp', lambda: case_strategy(file_only=True), n=320 if q else 8000, shards=16)]
+            Search('generated', 'hyp', case_strategy, n=3200 if q else 40000, shards=16),
+            Search('file', 'hyp', lambda: case_strategy(file_only=True), n=640 if q else 8000, shards=16)]
 
 
 # ---------------------------------------------------------------------- recipe
@@ -138,6 +136,18 @@ def z_resolution(case):
     zmax = max(abs(ztop), abs(zbot)) + 2.75 * case['dz'][0]
     hmax = max(case['dz']) * 2.75
     return 6e-4 * zmax + 3e-4 * hmax
+
+
+def xy_resolution(case):
+    """bound on the error of a horizontal centre coordinate written in a 10.3e field"""
+    ext = sum(case['dx']) + sum(case['dy'])
+    return 6e-4 * (max(abs(case['origin'][0]), abs(case['origin'][1])) + ext)
+
+
+def row_length(case):
+    """distance between the centres of the first and last block of the row that fixes the orientation"""
+    d = case['dx'] if len(case['dx']) > 1 else case['dy']
+    return sum(d) - (d[0] + d[-1]) / 2
 
 
 def recipe(case, with_file):
@@ -211,7 +221,7 @@ def add_boundary(grid, g, case, R):
     import t2grids
     und = g.layerlist[1:]
     nx, ny = len(case['dx']), len(case['dy'])
-    names = []
+    names, below = [], set()
     specs = sorted(case['boundary'], key=lambda s: s['vol'] == 'zero')      # zero-volume (inactive) blocks last
     for k, s in enumerate(specs):
         nm = 'Q%s%2d' % ('qz', 90 + k)
@@ -235,12 +245,14 @@ def add_boundary(grid, g, case, R):
         b = t2grids.t2block(nm, vol, grid.rocktypelist[0], centre=None)
         grid.add_block(b)
         area = col.area if dirn == 3 else float(inner.volume) / (2 * half) / 2
-        if s['first']: con = t2grids.t2connection([b, inner], dirn, [1e-6, half], area, 1.0 if dirn == 3 else 0.0)
-        else: con = t2grids.t2connection([inner, b], dirn, [half, 1e-6], area, -1.0 if dirn == 3 else 0.0)
+        # gravity cosine as TOUGH2 defines it (and fromgeo writes it): -1 when the second block is above the first
+        if s['first']: con = t2grids.t2connection([b, inner], dirn, [1e-6, half], area, -1.0 if dirn == 3 else 0.0)
+        else: con = t2grids.t2connection([inner, b], dirn, [half, 1e-6], area, 1.0 if dirn == 3 else 0.0)
         grid.add_connection(con)
         names.append(nm)
+        if dirn == 3: below.add((lay.name, col.name))
         R.label('boundary:%s:%s' % (s['vol'], s['at']))
-    return names
+    return names, below
 
 
 def run_case(case, R):
@@ -251,6 +263,9 @@ def run_case(case, R):
     if with_file and z_resolution(case) > 0.1 * min(case['dz']):
         with_file = False
         R.label('file:elevations-unresolvable-in-10.3e(memory-only)')
+    if with_file and row_length(case) < 10 * xy_resolution(case):
+        with_file = False
+        R.label('file:axis-unresolvable-in-10.3e(memory-only)')
     rc, snap = recipe(case, with_file)
     out = case['out']
     R.label('nx=1' if nx == 1 else 'ny=1' if ny == 1 else '3-D', 'conv:%d->%d' % (case['conv'], out['conv']),
@@ -281,7 +296,7 @@ def run_case(case, R):
     R.nontrivial(nx == 1 or ny == 1 or case['angle'] != 0 or len(kinds) > 1 or out['conv'] != case['conv'] or with_file)
     with R.lib('fromgeo'):
         grid = t2grids.t2grid().fromgeo(g)
-    bnames = add_boundary(grid, g, case, R) if case['boundary'] else []
+    bnames, below = add_boundary(grid, g, case, R) if case['boundary'] else ([], set())
     if with_file:
         dat = t2data.t2data(); dat.grid = grid
         fn = os.path.join(R.tmp, 'g.dat')
@@ -293,8 +308,13 @@ def run_case(case, R):
     kw = dict(atmos_type=case['atmos'], convention=out['conv'], justify=out['justify'], chars=geo.CHARS[out['chars']],
               spaces=True, layer_snap=snap, remove_inactive=out['remove_inactive'], block_order=out['block_order'])
     ob_name = g.block_name(und[-1].name, g.columnlist[0].name)
-    if out['origin_block'] == 'name': kw['origin_block'] = ob_name
-    elif out['origin_block'] == 'object': kw['origin_block'] = grid.block[ob_name]
+    how = out['origin_block']
+    if how == 'auto' and any(c.num_layers == 1 for c in g.columnlist):
+        # detection = first block of lowest centre; a bottom block that is also a surface block has its centre computed by
+        # another formula (last-bit differences): "specify it manually if the algorithm does not detect it correctly"
+        how = 'name'; R.label('origin-block:given(single-layer column present)')
+    if how == 'name': kw['origin_block'] = ob_name
+    elif how == 'object': kw['origin_block'] = grid.block[ob_name]
     try:
         with R.lib('rectgeo'):
             g2, bm = grid.rectgeo(**kw)
@@ -305,9 +325,8 @@ def run_case(case, R):
     size = max(1.0, max(abs(float(v)) for n in g.nodelist for v in n.pos))
     if with_file:
         rel = 4e-4
-        dxy = 6e-4 * size                       # a centre coordinate in 10.3e
-        row = sum(case['dx']) - (case['dx'][0] + case['dx'][-1]) / 2 if nx > 1 else \
-            sum(case['dy']) - (case['dy'][0] + case['dy'][-1]) / 2
+        dxy = xy_resolution(case)                # a centre coordinate in 10.3e
+        row = row_length(case)
         dang = 2.5 * dxy / row                  # radians
         ptol = dxy * 2 + dang * ext + 2e-4 * ext
         ztol = z_resolution(case)
@@ -326,7 +345,7 @@ def run_case(case, R):
     # ---------------------------------------------------------------- layers
     t1 = [float(l.top - l.bottom) for l in und]; t2 = [float(l.top - l.bottom) for l in g2.layerlist[1:]]
     if R.check(len(t1) == len(t2), 'spacing:z-count', 'layers %d expected %d' % (len(t2), len(t1))):
-        R.check(all(abs(a - b) <= rel * a for a, b in zip(t1, t2)), 'spacing:z', lambda: 'layer thicknesses %r expected %r' % (t2, t1))
+        R.check(all(abs(a - b) <= rel * a + 2 * ztol for a, b in zip(t1, t2)), 'spacing:z', lambda: 'layer thicknesses %r expected %r' % (t2, t1))
         R.check(all(abs(float(a.bottom) - float(b.bottom)) <= ztol + rel * (ztop - zbot) for a, b in zip(und, g2.layerlist[1:])),
                 'position:z', lambda: 'layer bottoms %r expected %r' % ([float(l.bottom) for l in g2.layerlist[1:]],
                                                                        [float(l.bottom) for l in und]))
@@ -348,26 +367,41 @@ def run_case(case, R):
             if abs(float(np.dot(e, ax1))) >= 0.5 * math.sqrt(2) * L: sx = max(sx, L)
             else: sy = max(sy, L)
         return (sx, sy)
-    exp_sides = sorted((float(a), float(b)) for b in case['dy'] for a in case['dx'])
-    got_sides = sorted(sides(c) for c in g2.columnlist)
-    R.check(all(abs(a[0] - b[0]) <= rel * b[0] and abs(a[1] - b[1]) <= rel * b[1] for a, b in zip(got_sides, exp_sides)),
-            'spacing:xy', lambda: 'column sizes (x, y) %r expected %r' % (got_sides[:6], exp_sides[:6]))
+    exp_sides = [(float(a), float(b)) for b in case['dy'] for a in case['dx']]
+    got_sides = [sides(c) for c in g2.columnlist]
+    left = list(exp_sides)
+    for sx, sy in got_sides:
+        k = next((i for i, (a, b) in enumerate(left) if abs(sx - a) <= rel * a and abs(sy - b) <= rel * b), None)
+        if k is None:
+            R.fail('spacing:xy', 'a column of the result measures %r x %r along permeability directions 1, 2; source spacings dx=%r dy=%r '
+                   '(multiset of column sizes differs)' % (sx, sy, case['dx'], case['dy']))
+            break
+        left.pop(k)
     # ---------------------------------------------------------------- column polygons coincide one-to-one
     c1 = np.array([[float(v) for v in c.centre] for c in g.columnlist])
+    resolvable = ptol <= 0.25 * min(min(case['dx']), min(case['dy']))
+    if not resolvable: R.label('file:columns-matched-through-block-map(positions below field resolution)')
+    colindex = dict((c.name, i) for i, c in enumerate(g.columnlist))
     match = {}
     used = set()
     ok = True
-    worst = 0.0
     for c in g2.columnlist:
-        d = np.hypot(c1[:, 0] - float(c.centre[0]), c1[:, 1] - float(c.centre[1]))
-        k = int(np.argmin(d))
+        if resolvable:
+            d = np.hypot(c1[:, 0] - float(c.centre[0]), c1[:, 1] - float(c.centre[1]))
+            k = int(np.argmin(d))
+        else:
+            # 10.3e centres cannot tell neighbouring columns apart: identify the source column through the block map
+            src = bm.get(g2.block_name(g2.layerlist[-1].name, c.name))
+            k = colindex.get(g.column_name(src)) if src in grid.block else None
+            if k is None:
+                ok = False
+                R.fail('blockmap:bottom-block', 'bottom block of column %r maps to %r' % (c.name, src)); break
         o = g.columnlist[k]
         pa = [n.pos for n in c.node]; pb = [n.pos for n in o.node]
         dev = max([min(float(np.linalg.norm(p - q)) for q in pb) for p in pa] + [min(float(np.linalg.norm(p - q)) for q in pa) for p in pb])
-        worst = max(worst, dev)
         if dev > ptol or k in used or len(pa) != len(pb):
             ok = False
-            R.fail('position:column-polygon', 'column %r of the result (centre %r) coincides with no source column: nearest %r '
+            R.fail('position:column-polygon', 'column %r of the result (centre %r) coincides with no (unused) source column: nearest %r '
                    '(centre %r) deviates by %.6g (tolerance %.3g); permeability angle %r expected %r' % (
                        c.name, [float(v) for v in c.centre], o.name, [float(v) for v in o.centre], dev, ptol,
                        float(g2.permeability_angle), float(g.permeability_angle)))
@@ -392,6 +426,14 @@ def run_case(case, R):
                                                                            case['atmos'], g.num_atmosphere_blocks))
     # ---------------------------------------------------------------- block map and regenerated grid
     gnames = set(b.name for b in grid.blocklist) - set(bnames)
+    if any(v in bnames for v in bm.values()) and case['atmos'] != 2 and any(
+            c.num_layers == 1 and (und[-1].name, c.name) in below for c in g.columnlist):
+        # a column consisting of its bottom block only, with a boundary block attached underneath: rectgeo looks for
+        # "the other block in direction 3" to find the atmosphere block and may take the boundary block
+        R.fail('boundary:block-below-single-layer-column-mapped-as-atmosphere',
+               'block map sends %r to boundary blocks' % sorted(k for k, v in bm.items() if v in bnames))
+        R.exclude('boundary:block-below-single-layer-column-mapped-as-atmosphere')
+        return
     R.check(all(v in gnames for v in bm.values()), 'blockmap:value-not-a-grid-block',
             lambda: 'block map values that are not lattice blocks of the grid: %r' % sorted(v for v in bm.values() if v not in gnames)[:5])
     R.check(len(set(bm.values())) == len(bm), 'blockmap:not-injective', 'two geometry blocks map to one grid block')
